@@ -499,10 +499,10 @@ func driveReplay(cfg *Config, fn RunFn) int {
 // absurdly long in wall-clock time: that is harness trouble, e.g. a goroutine
 // blocked non-durably so that the bubble cannot settle.
 func watchdog(what string) *time.Timer {
-	return time.AfterFunc(60*time.Second, func() {
+	return time.AfterFunc(240*time.Second, func() {
 		buf := make([]byte, 1<<20)
 		n := runtime.Stack(buf, true)
-		fmt.Printf("INFRA: watchdog: %s did not finish within 60s of wall time\n%s\n", what, buf[:n])
+		fmt.Printf("INFRA: watchdog: %s did not finish within 240s of wall time\n%s\n", what, buf[:n])
 		os.Exit(2)
 	})
 }
